@@ -3,6 +3,7 @@ package props
 import (
 	"bytes"
 	"fmt"
+	"github.com/cosmos/cosmos-sdk/types/query"
 	"strings"
 	"time"
 
@@ -64,7 +65,9 @@ func singlePerturbations(m *ophosttypes.MsgFinalizeTokenWithdrawal, cx c03Ctx) [
 	for e := range m.WithdrawalProofs {
 		e := e
 		ps = append(ps,
-			perturbation{"proof.elem.trailing_byte", func(m *ophosttypes.MsgFinalizeTokenWithdrawal) { m.WithdrawalProofs[e] = append(m.WithdrawalProofs[e], 0x00) }},
+			perturbation{"proof.elem.trailing_byte", func(m *ophosttypes.MsgFinalizeTokenWithdrawal) {
+				m.WithdrawalProofs[e] = append(m.WithdrawalProofs[e], 0x00)
+			}},
 			perturbation{"proof.elem.trailing_32", func(m *ophosttypes.MsgFinalizeTokenWithdrawal) {
 				m.WithdrawalProofs[e] = append(m.WithdrawalProofs[e], bytes.Repeat([]byte{0xab}, 32)...)
 			}},
@@ -118,7 +121,9 @@ func singlePerturbations(m *ophosttypes.MsgFinalizeTokenWithdrawal, cx c03Ctx) [
 	n := len(m.WithdrawalProofs)
 	for k := 1; k <= n; k++ {
 		k := k
-		ps = append(ps, perturbation{"proof.truncated.tail", func(m *ophosttypes.MsgFinalizeTokenWithdrawal) { m.WithdrawalProofs = m.WithdrawalProofs[:len(m.WithdrawalProofs)-k] }})
+		ps = append(ps, perturbation{"proof.truncated.tail", func(m *ophosttypes.MsgFinalizeTokenWithdrawal) {
+			m.WithdrawalProofs = m.WithdrawalProofs[:len(m.WithdrawalProofs)-k]
+		}})
 		ps = append(ps, perturbation{"proof.truncated.head", func(m *ophosttypes.MsgFinalizeTokenWithdrawal) { m.WithdrawalProofs = m.WithdrawalProofs[k:] }})
 	}
 	if n > 0 {
@@ -155,17 +160,39 @@ func refVerify(l1 *sim.L1, m *ophosttypes.MsgFinalizeTokenWithdrawal) (exists, r
 			return // proof elements are 32-byte node hashes
 		}
 	}
-	o, err := l1.Q.OutputProposal(l1.Ctx, &ophosttypes.QueryOutputProposalRequest{BridgeId: m.BridgeId, OutputIndex: m.OutputIndex})
-	if err != nil {
+	// what the store holds at that index is read by iteration over the stored outputs, not through the per-key getter
+	// the handler itself uses
+	stored := storedOutputRoot(l1, m.BridgeId, m.OutputIndex)
+	if stored == nil {
 		return
 	}
 	exists = true
 	or := ref.OutputRoot(m.Version[0], m.StorageRoot, m.LastBlockHash)
-	rootOK = bytes.Equal(or[:], o.OutputProposal.OutputRoot)
+	rootOK = bytes.Equal(or[:], stored)
 	leaf := ref.Leaf(m.BridgeId, m.Sequence, m.From, m.To, m.Amount.Denom, m.Amount.Amount.Uint64())
 	r := ref.Root(leaf, m.WithdrawalProofs)
 	proofOK = bytes.Equal(r[:], m.StorageRoot)
 	return
+}
+
+// storedOutputRoot returns the root stored at (bridge, index) as the paginated list query shows it, or nil.
+func storedOutputRoot(l1 *sim.L1, bridge, index uint64) []byte {
+	var key []byte
+	for {
+		res, err := l1.Q.OutputProposals(l1.Ctx, &ophosttypes.QueryOutputProposalsRequest{BridgeId: bridge, Pagination: &query.PageRequest{Key: key, Limit: 50}})
+		if err != nil {
+			panic(err)
+		}
+		for _, o := range res.OutputProposals {
+			if o.OutputIndex == index {
+				return o.OutputProposal.OutputRoot
+			}
+		}
+		if res.Pagination == nil || len(res.Pagination.NextKey) == 0 {
+			return nil
+		}
+		key = res.Pagination.NextKey
+	}
 }
 
 func checkC03(run *mon.Run, rng *mon.Rand, thorough bool) {
@@ -206,7 +233,7 @@ func checkC03(run *mon.Run, rng *mon.Rand, thorough bool) {
 			// same identities committed on bridge 2
 			ws2 := mk(2, 1, n)
 			env.ProposeTree(2, ws2, ref.TreeShape(shape), rng)
-			env.L1.NextBlock(period + time.Second)              // A, B final
+			env.L1.NextBlock(period + time.Second)            // A, B final
 			outC := env.ProposeTree(1, mk(1, 200, 2), 0, rng) // not yet final
 			cx := c03Ctx{otherOutputs: []uint64{outB.Index, outC.Index, outC.Index + 1, 0}, otherAddr: env.Users[7].String(), inner: outA.Tree.InnerNodes()}
 
@@ -344,17 +371,82 @@ func checkC03(run *mon.Run, rng *mon.Rand, thorough bool) {
 				continue
 			}
 			variants := map[string][][]byte{
-				"extended+1 garbage":   append(append([][]byte{}, sibs...), rng.Bytes(32)),
-				"extended+dup last":    append(append([][]byte{}, sibs...), sibs[L-1]),
-				"extended+5 garbage":   append(append([][]byte{}, sibs...), rng.Bytes(32), rng.Bytes(32), rng.Bytes(32), rng.Bytes(32), rng.Bytes(32)),
-				"truncated last":       sibs[:L-1],
-				"truncated first":      sibs[1:],
+				"extended+1 garbage": append(append([][]byte{}, sibs...), rng.Bytes(32)),
+				"extended+dup last":  append(append([][]byte{}, sibs...), sibs[L-1]),
+				"extended+5 garbage": append(append([][]byte{}, sibs...), rng.Bytes(32), rng.Bytes(32), rng.Bytes(32), rng.Bytes(32), rng.Bytes(32)),
+				"truncated last":     sibs[:L-1],
+				"truncated first":    sibs[1:],
 			}
 			for name, pr := range variants {
 				r := env.L1.Branch().Deliver(mk(pr))
 				run.Evaluations++
 				run.Check("C03.deep_path_length_is_binding", r.Class != sim.OK, "c03.path_length_not_binding", []string{fmt.Sprintf("committed path length %d, submitted %s (%d elements)", L, name, len(pr))}, "claim with a %s path accepted for a commitment of path length %d", name, L)
 				run.Distinct(fmt.Sprintf("C03/deep/%d/%s", L, name))
+			}
+		}
+	}
+	// ---- ghost outputs: roots that were proposed (and read) only on state branches that were thrown away — a failed
+	// multi-message transaction, a simulation — commit to nothing. Each script runs on a discarded branch, then time
+	// passes on the committed chain and the claim against the ghost root is delivered for real. ----
+	run.Declare("C03.discarded_proposal_commits_nothing", 12)
+	{
+		scripts := []string{"propose-next+claim", "propose-next+query", "delete-last+repropose+claim", "delete-last+repropose+query", "propose-next+claim, then real output at that index", "delete-last+repropose+claim, last output final later"}
+		for si, sc := range scripts {
+			for rep := 0; rep < pick(thorough, 2, 6); rep++ {
+				env := newL1Env(1, []time.Duration{period})
+				user := env.Users[1]
+				if r := env.Deposit(env.Users[0], 1, "l2", "uinit", math.NewInt(500_000_000), nil); r.Class != sim.OK {
+					panic(r.ErrString())
+				}
+				roles := env.Bridges[1]
+				good := env.ProposeTree(1, []Withdrawal{{1, 1, "l2a", user.String(), "uinit", 10}, {1, 2, "l2b", user.String(), "uinit", 20}}, ref.PadLast, rng)
+				if rep%2 == 1 {
+					env.L1.NextBlock(time.Second)
+					good = env.ProposeTree(1, []Withdrawal{{1, 3, "l2a", user.String(), "uinit", 11}, {1, 4, "l2b", user.String(), "uinit", 21}}, ref.PadLast, rng)
+				}
+				env.L1.NextBlock(time.Second)
+				ghost := BuildOutput(1, []Withdrawal{{1, 77, "l2ghost", user.String(), "uinit", 123456}, {1, 78, "l2ghost", user.String(), "uinit", 654321}}, ref.PadLast, rng)
+				br := env.L1.Branch()
+				var steps []string
+				if si == 2 || si == 3 || si == 5 {
+					r := br.Deliver(ophosttypes.NewMsgDeleteOutput(roles.Challenger.String(), 1, good.Index))
+					steps = append(steps, fmt.Sprintf("branch: delete output %d -> %s", good.Index, r.Class))
+					ghost.Index = good.Index
+				} else {
+					ghost.Index = good.Index + 1
+				}
+				r := br.Deliver(ophosttypes.NewMsgProposeOutput(roles.Proposer.String(), 1, ghost.Index, roles.LastL2+50, ghost.OutputRoot[:]))
+				steps = append(steps, fmt.Sprintf("branch: propose ghost root at index %d -> %s %s", ghost.Index, r.Class, r.ErrString()))
+				if r.Class != sim.OK {
+					panic("ghost proposal failed on the branch: " + r.ErrString())
+				}
+				if si == 1 || si == 3 {
+					_, err := br.Q.OutputProposal(br.Ctx, &ophosttypes.QueryOutputProposalRequest{BridgeId: 1, OutputIndex: ghost.Index})
+					steps = append(steps, fmt.Sprintf("branch: query output %d -> err=%v", ghost.Index, err))
+				} else {
+					r := br.Deliver(ghost.Claim(0, user.String()))
+					steps = append(steps, fmt.Sprintf("branch: claim against ghost -> %s (not final yet)", r.Class))
+				}
+				steps = append(steps, "branch discarded")
+				if si == 4 {
+					env.L1.NextBlock(time.Second)
+					real := env.ProposeTree(1, []Withdrawal{{1, 5, "l2a", user.String(), "uinit", 12}}, ref.PadLast, rng)
+					steps = append(steps, fmt.Sprintf("committed: real output proposed at index %d", real.Index))
+				}
+				env.L1.NextBlock(period + 2*time.Second)
+				steps = append(steps, "committed: finalization period passes")
+				for leaf := 0; leaf < 2; leaf++ {
+					m := ghost.Claim(leaf, user.String())
+					e, ro, po := refVerify(env.L1, m)
+					res := env.L1.Branch().Deliver(m)
+					run.Evaluations++
+					run.Check("C03.discarded_proposal_commits_nothing", res.Class != sim.OK, "c03.ghost_root_honoured", append(steps, fmt.Sprintf("committed: claim leaf %d against the ghost root at index %d -> %s (ref: exists=%v root=%v proof=%v)", leaf, ghost.Index, res.Class, e, ro, po)), "claim paid against a root that was only ever proposed on a discarded branch (script %q)", sc)
+				}
+				// the committed output is still honoured
+				ctl := env.L1.Branch().Deliver(good.Claim(0, user.String()))
+				run.Evaluations++
+				run.Check("C03.control_accepted", ctl.Class == sim.OK, "c03.control_rejected_after_ghost", append(steps, "committed: claim against the really stored output -> "+string(ctl.Class)+" "+ctl.ErrString()), "valid claim against the committed output %d rejected after a discarded branch touched that bridge (script %q)", good.Index, sc)
+				run.Distinct(fmt.Sprintf("C03/ghost/%s/%d", sc, rep%2))
 			}
 		}
 	}
